@@ -35,6 +35,18 @@ Definition label_code (l : label) : N :=
   | LLockPipe => 15 | LLoad => 16 | LRecv => 17 | LForeign => 18 | LCheck => 19 | LPipeWait => 20 | LAppendFwd => 21 | LNone => 0
   end.
 
+(** The tie identifies a step by WHAT it does - the operation and the field it acts on - not by the function that contains
+    it: the same operation executed at different places of the code has one class ("Lock f.mu" in close and in PipeTo,
+    "closed.Load" in PipeTo and in Closed(), "<-done" in Result/Wait and in PipeTo).  Which of the places it is follows from
+    the thread's pc in the model; the per-step comparison of the projected state keeps the correspondence tight. *)
+Definition class_code (l : label) : N :=
+  match l with
+  | LLockPipe => label_code LLockClose
+  | LCheck => label_code LLoad
+  | LPipeWait => label_code LRecv
+  | _ => label_code l
+  end.
+
 Definition tval (v : val) : tm :=
   match v with VMsg m => TL [TN 0; TN m] | VErr e => TL [TN 1; TN e] | VNil => TL [TN 2] end.
 Definition tres (r : res) : list tm := [topt TN (fst r); topt TN (snd r)].
@@ -64,7 +76,7 @@ Fixpoint replay (sched : list nat) (s : st) : list tm * st :=
       let s1 := advance s i in
       let lab := match nth_error (thr s1) i with Some p => label_of p | None => LNone end in
       match step i s1 with
-      | Some s' => let (out, sf) := replay r s' in (TL (TN (label_code lab) :: proj s') :: out, sf)
+      | Some s' => let (out, sf) := replay r s' in (TL (TN (class_code lab) :: proj s') :: out, sf)
       | None => ([TL [TN 99; TN (N.of_nat i)]], s1)
       end
   end.
